@@ -985,10 +985,10 @@ def compile_match_from_query(query_items: tuple):
         elif key == "kinds":
             col = FIELDS_TO_COLUMNS["kind"]
             filter_clauses.add(f"(et[{col}] in {value!r})")
-        elif key == "since" and value:
+        elif key == "since":
             col = FIELDS_TO_COLUMNS["created_at"]
             filter_clauses.add(f"(et[{col}] >= {value!r})")
-        elif key == "until" and value:
+        elif key == "until":
             col = FIELDS_TO_COLUMNS["created_at"]
             filter_clauses.add(f"(et[{col}] <= {value!r})")
         elif key == "search" and Config.fts_enabled:
